@@ -231,10 +231,10 @@ def u_secp_privtopub(ctx):
 
 
 UNITS["secp.jacobian_multiply"] = Unit("secp.jacobian_multiply", u_secp_jmultiply, [f"{SECP}.jacobian_multiply"],
-                                       props=("C18",))
-UNITS["secp.multiply"] = Unit("secp.multiply", u_secp_multiply, [f"{SECP}.multiply"], props=("C18",))
+                                       props=("C18", "C19", "C06"))
+UNITS["secp.multiply"] = Unit("secp.multiply", u_secp_multiply, [f"{SECP}.multiply"], props=("C18", "C06"))
 UNITS["secp.add"] = Unit("secp.add", u_secp_add, [f"{SECP}.add"], props=("C18",))
-UNITS["secp.privtopub"] = Unit("secp.privtopub", u_secp_privtopub, [f"{SECP}.privtopub"], props=("C18",))
+UNITS["secp.privtopub"] = Unit("secp.privtopub", u_secp_privtopub, [f"{SECP}.privtopub"], props=("C18", "C06"))
 
 
 # ------------------------------------------------------------------------------------------
